@@ -367,6 +367,9 @@ def check_case(case):
             rec = sut(hv.read_single, fn, degrees_from_north=explicit, allow=(ValueError,) if refuse else (), what=f"read_single[{fmt}]")
         except Refusal:
             return dict(labels=labels + ["saf-vertical-on-ch1-refused"], nontrivial=False)
+        if refuse:
+            raise Violation(f"saf (channels {case.get('assign')}, NORTH_ROT={case.get('north_rot')}): a file whose channel 1 is the vertical was read without an explicit "
+                            f"degrees_from_north (orientation reported: {rec.degrees_from_north}); the reader documents a ValueError because the orientation cannot be inferred")
         if exp.get("tie"):
             # both horizontals equally far from north: either may be taken as "ns", the other must be "ew"
             h = rec.ns.amplitude
